@@ -80,6 +80,15 @@ def install_twisted(reg):
     em["twisted.internet.defer.Deferred"] = lambda it, args, kw: VObj("Deferred")
 
 
+def allows(it, expected, name):
+    """the application's declaration admits this subprotocol name: no set declared, or the name is in it"""
+    if expected is NONE:
+        return VBool(True)
+    if isinstance(expected, VOpt):
+        return VBool(z3.Or(expected.isnone, z3.Select(expected.inner.z, name.z)))
+    return VBool(z3.Select(expected.z, name.z))
+
+
 def install_spec(reg):
     sf = reg.spec_funcs
 
@@ -109,14 +118,6 @@ def install_spec(reg):
                             z3.Implies(in_states(it, o, ["open_full", "closing"]), z3.Not(half))))
 
     sf["sc_inv"] = sc_inv
-
-    def allows(it, expected, name):
-        """the application's declaration admits this subprotocol name: no set declared, or the name is in it"""
-        if expected is NONE:
-            return VBool(True)
-        if isinstance(expected, VOpt):
-            return VBool(z3.Or(expected.isnone, z3.Select(expected.inner.z, name.z)))
-        return VBool(z3.Select(expected.z, name.z))
 
     sf["allows"] = allows
 
@@ -513,7 +514,8 @@ DEMUX_CONTRACTS = [
              self_fields=DEMUX_FIELDS, modifies=["_factories", "_pending_opens"],
              raises_exactly={"ValueError": "subprotocol_name in self._factories"},
              ensures_raise={"ValueError": [("nothing-connected", "n_calls('_connect') == 0"),
-                                           ("listeners-kept", "forall(lambda k: (k in self._factories) == (k in old(self._factories)), 'str')"),
+                                           ("listeners-kept", "forall(lambda k: (k in self._factories) == (k in old(self._factories)) and "
+                                                             "self._factories[k] == old(self._factories)[k], 'str')"),
                                            ("queue-kept", "forall(lambda k: self._pending_opens[k] == old(self._pending_opens)[k], 'str')")]},
              ensures=[
                  ("listening", "subprotocol_name in self._factories and self._factories[subprotocol_name] == factory"),
@@ -543,6 +545,8 @@ WILL_REFUSE = f"(subprotocol not in {DX}._factories) and not allows({DX}._expect
 OTHERS_KEPT = ("forall(lambda k: k == scid or ((k in self._open_subchannels) == (k in old(self._open_subchannels)) and "
                "self._open_subchannels[k] == old(self._open_subchannels)[k]))")
 
+NEWSC0 = "new_obj('SubChannel', 0)"
+
 INB_CONTRACTS = [
     Contract(f"{INB}:Inbound.handle_open", props=[PROP], params={"scid": "int", "subprotocol": "str"},
              self_fields=INB_FIELDS, modifies=["_open_subchannels"],
@@ -563,9 +567,13 @@ INB_CONTRACTS = [
                   f"old(scid in self._open_subchannels) or old({WILL_REFUSE}) or "
                   "(len(bcall_names()) == 0 and scid in self._open_subchannels and "
                   "self._open_subchannels[scid] == new_obj('SubChannel', 0))"),
+                 ("a-held-subchannel-starts-unconnected-with-nothing-queued",
+                  f"implies(news('SubChannel') == 1 and not old(subprotocol in {DX}._factories) and not old({WILL_REFUSE}), "
+                  f"in_state({NEWSC0}, 'unconnected') and sc_inv({NEWSC0}) and {NEWSC0}._protocol is None and "
+                  f"len({NEWSC0}._pending_remote_data) == 0 and not {NEWSC0}._pending_remote_close)"),
                  ("other-subchannels-untouched", OTHERS_KEPT)],
              note="the demultiplexer is used through its contract (_got_open): refusal condition and effect are those proved "
-                  "there; SubChannel construction is a boundary event here"),
+                  "there; SubChannel(...) runs the real attrs construction + __attrs_post_init__ (regf_real_subchannel)"),
     Contract(f"{INB}:Inbound.handle_data", props=[PROP], params={"scid": "int", "data": "bytes"},
              self_fields=INB_FIELDS, modifies=[],
              ensures=[("unknown-subchannel-dropped", "old(scid in self._open_subchannels) or len(bcall_names()) == 0"),
@@ -691,11 +699,352 @@ for _c in WIRING_CONTRACTS:
     if _c.target.endswith("Dilator.dilate"):
         _c.pre_hook = once_hook
 
-CONTRACTS = SC_CONTRACTS + DEMUX_CONTRACTS + INB_CONTRACTS + WIRING_CONTRACTS
+
+# ------------------------------------------------------------------ endpoints: connect() / listen() (inlineCallbacks generators)
+OBS = "OneShotObserver.when_fired"
+EP_MGR_FIELDS = {"_main_channel": "obj[OneShotObserverB]", "_next_subchannel_id": "int", "_inbound": "obj[Inbound]",
+                 "_outbound": "obj[OutboundB]", "_subprotocol_factories": "obj[SubchannelDemultiplex]",
+                 "_host_addr": "opaque[Addr]"}
+# what may have changed, by any other handler, while the generator was suspended at `yield ...when_fired()`
+EP_MGR_UNSTABLE = [("_next_subchannel_id",), ("_inbound", "_open_subchannels"), ("_subprotocol_factories", "_factories"),
+                   ("_subprotocol_factories", "_pending_opens")]
+EP_STABLE = {"SubchannelConnectorEndpoint": {"_subprotocol", "_manager", "_host_addr", "_eventual_queue"},
+             "SubchannelListenerEndpoint": {"subprotocol_name", "_manager"}}
+
+
+def res_main_channel(it, d, fr):
+    """deferred-result contract of Manager._main_channel.when_fired(): it fires (with None) once the first peer
+    connection is up, or fails with OldPeerCannotDilateError (the only failure Manager.fail is ever given).  By then the
+    manager's mutable state is arbitrary; ghost `resumed` = the manager as the generator finds it when it is resumed"""
+    if it.ctx.choose([z3.BoolVal(True), z3.BoolVal(True)], "main-channel") == 1:
+        it.raise_("OldPeerCannotDilateError")
+    f = fr
+    while f is not None and f.selfobj is None:
+        f = f.parent
+    for path in EP_MGR_UNSTABLE:
+        it.havoc_target(("self", "_manager") + path, f)
+    from pyvc.interp import snapshot
+    snap = snapshot(f.selfobj.fields["_manager"], {})
+    g = fr.lookup("resumed")
+    if isinstance(g, VObj):
+        g.fields = snap.fields       # the ghost object the contract's pre_hook created: updated in place
+    else:
+        fr.locals["resumed"] = snap
+    return NONE
+
+
+def real_subchannel(it, cls, args, kwargs):
+    """SubChannel(...) runs the REAL attrs construction + __attrs_post_init__; the machine starts in its initial state.
+    Ghost __id lets the object be stored in the tables of opaque[SubChannel] handles"""
+    from pyvc.interp import Frame
+    h = it.reg.ext_models.pop("new:SubChannel")
+    try:
+        o = it.instantiate(cls, args, kwargs, Frame(None, cls.cdef.module))
+    finally:
+        it.reg.ext_models["new:SubChannel"] = h
+    it.reg.automat.init_state(it, o, cls.cdef)
+    # same values in the representation the SubChannel contracts declare (Optional protocol, symbolic list)
+    if o.fields.get("_protocol") is NONE:
+        o.fields["_protocol"] = VOpt(z3.BoolVal(True), it.fresh("opaque[Protocol]", "no_protocol"))
+    q = o.fields.get("_pending_remote_data")
+    if isinstance(q, VList) and not q.items:
+        o.fields["_pending_remote_data"] = VSeq(z3.Empty(z3.SeqSort(sort_of("bytes"))), "bytes")
+    o.fields["__id"] = it.fresh("opaque[SubChannel]", "subchannel_id")
+    it.ctx.event("new", "SubChannel", dict(o.fields), o)
+    return o
+
+
+def install_endpoint_spec(reg):
+    sf = reg.spec_funcs
+
+    def ev_pos(it, name, k):
+        """position in the ghost trace of the k-th event `name`: a boundary call of that method, a call (by contract) of a
+        function of that name, or the construction of that class; -1 if there is none"""
+        name, k = it.concrete(name), it.concrete(k)
+        idx = [i for i, e in enumerate(it.ctx.trace)
+               if (e[0] == "bcall" and e[1][1] == name) or (e[0] == "new" and e[1][0] == name) or
+               (e[0] == "call" and e[1][0].split(".")[-1] == name)]
+        return VInt(idx[k] if k < len(idx) else -1)
+
+    sf["ev_pos"] = ev_pos
+
+    def in_order(it, *names):
+        """each named event happens exactly once and they happen in this order"""
+        pos = []
+        for n in names:
+            n = it.concrete(n)
+            idx = [i for i, e in enumerate(it.ctx.trace)
+                   if (e[0] == "bcall" and e[1][1] == n) or (e[0] == "new" and e[1][0] == n) or
+                   (e[0] == "call" and e[1][0].split(".")[-1] == n)]
+            if len(idx) != 1:
+                return VBool(False)
+            pos.append(idx[0])
+        return VBool(pos == sorted(pos))
+
+    sf["in_order"] = in_order
+
+    def bcall_ret(it, name, k):
+        name, k = it.concrete(name), it.concrete(k)
+        evs = [e for e in it.ctx.trace if e[0] == "bcall" and e[1][1] == name]
+        if k >= len(evs) or "ret" not in evs[k][2]:
+            return VObj("<missing>")
+        return evs[k][2]["ret"]
+
+    sf["bcall_ret"] = bcall_ret
+
+    def is_class(it, v, name):
+        v = it.force(v)
+        return VBool(type(v).__name__ in ("VClass", "VNamedTupleClass") and v.name == it.concrete(name))
+
+    sf["is_class"] = is_class
+
+
+def recording_boundary_ret(it, recv, meth, args, kwargs, fr):
+    """recording_boundary, with the value handed back kept in the event too (bcall_ret)"""
+    cls = recv.cls if isinstance(recv, VObj) else recv.name
+    rt = it.reg.boundary_returns.get(f"{cls}.{meth}") or it.reg.boundary_returns.get(f"*.{meth}")
+    ret = NONE if rt is None else it.fresh(rt, f"{cls}_{meth}")
+    it.ctx.event("bcall", cls, meth, list(args), dict(kwargs), recv=recv, ret=ret)
+    return ret
+
+
+def regf_real_subchannel():
+    """regf(), but SubChannel(...) is really constructed (Inbound.handle_open)"""
+    reg = regf()
+    reg.ext_models["new:SubChannel"] = real_subchannel
+    return reg
+
+
+def regf_endpoints():
+    from . import c11, deferred
+    reg = base_registry()
+    register_classes(reg, [MGR])
+    reg.boundary["*.*"] = recording_boundary_ret
+    reg.class_fields["Manager"] = dict(EP_MGR_FIELDS)
+    reg.class_fields["Inbound"] = {"_open_subchannels": "dict[int,opaque[SubChannel]]"}
+    reg.boundary_returns["OutboundB.build_record"] = "opaque[Record]"
+    deferred.install(reg, {OBS: res_main_channel}, EP_STABLE)
+
+    def when_fired(it, recv, meth, args, kwargs, fr):
+        it.ctx.event("bcall", recv.cls, meth, list(args), dict(kwargs), recv=recv)
+        return deferred.make_deferred(OBS, recv=recv, args=list(args), kwargs=dict(kwargs))
+
+    reg.boundary["OneShotObserverB.when_fired"] = when_fired
+    reg.ext_models["new:SubChannel"] = real_subchannel
+    install_endpoint_spec(reg)
+    for c in CONTRACTS + [c for c in c11.ROLE_CONTRACTS if c.target.endswith("Manager.allocate_subchannel_id")]:
+        reg.contracts[c.target] = caller_view(c)
+    return reg
+
+
+OPENS = "self._inbound._open_subchannels"
+DXM = "self._subprotocol_factories"
+EP_OTHERS_KEPT = (f"forall(lambda k: k == scid or ((k in {OPENS}) == (k in old({OPENS})) and "
+                  f"{OPENS}[k] == old({OPENS})[k]))")
+
+MGR_FWD_CONTRACTS = [
+    Contract(f"{MGR}:Manager.send_open", props=[PROP], params={"scid": "int", "subprotocol": "str"},
+             self_fields={"_outbound": "obj[OutboundB]"}, modifies=[],
+             effects=[("build_record", ["Open", "scid", "subprotocol"]),
+                      ("queue_and_send_record", ["bcall_ret('build_record', 0)"])],
+             internal_ensures=[("an-OPEN-record", "is_class(bcall_arg('build_record', 0, 0), 'Open')"),
+                               ("built-and-queued-by-the-outbound-side",
+                                "bcall_recv('build_record', 0) is self._outbound and "
+                                "bcall_recv('queue_and_send_record', 0) is self._outbound")],
+             note="exactly one record is built - an Open carrying this id and this subprotocol name - and exactly that record "
+                  "is queued for sending (what Outbound does with it: C10)"),
+    Contract(f"{MGR}:Manager.subchannel_local_open", props=[PROP], params={"scid": "int", "sc": "opaque[SubChannel]"},
+             self_fields={"_inbound": "obj[Inbound]"}, modifies=["_inbound._open_subchannels"],
+             raises_exactly={"AssertionError": f"scid in {OPENS}"},
+             ensures=[("registered", f"scid in {OPENS} and {OPENS}[scid] == sc"),
+                      ("other-subchannels-untouched", EP_OTHERS_KEPT)],
+             note="forwards to Inbound.subchannel_local_open (used through its contract)"),
+    Contract(f"{MGR}:Manager._register_subprotocol_factory", props=[PROP], params={"name": "str", "factory": "opaque[Factory]"},
+             self_fields={"_subprotocol_factories": "obj[SubchannelDemultiplex]"},
+             modifies=["_subprotocol_factories._factories", "_subprotocol_factories._pending_opens"],
+             raises_exactly={"ValueError": f"name in {DXM}._factories"},
+             ensures_raise={"ValueError": [
+                 ("listeners-kept", f"forall(lambda k: (k in {DXM}._factories) == (k in old({DXM}._factories)) and "
+                                    f"{DXM}._factories[k] == old({DXM}._factories)[k], 'str')"),
+                 ("queue-kept", f"forall(lambda k: {DXM}._pending_opens[k] == old({DXM}._pending_opens)[k], 'str')")]},
+             ensures=[("registered-once-with-the-demultiplexer",
+                       "n_calls('SubchannelDemultiplex.register') == 1 and call_arg('SubchannelDemultiplex.register', 0, 0) is "
+                       f"{DXM} and call_arg('SubchannelDemultiplex.register', 0, 1) == name and "
+                       "call_arg('SubchannelDemultiplex.register', 0, 2) == factory and len(bcall_names()) == 0"),
+                      ("listening", f"name in {DXM}._factories and {DXM}._factories[name] == factory"),
+                      ("other-listeners-kept",
+                       f"forall(lambda k: k == name or ((k in {DXM}._factories) == (k in old({DXM}._factories)) and "
+                       f"{DXM}._factories[k] == old({DXM}._factories)[k]), 'str')"),
+                      ("queue-for-this-name-emptied", f"len({DXM}._pending_opens[name]) == 0"),
+                      ("other-queues-untouched",
+                       f"forall(lambda k: k == name or {DXM}._pending_opens[k] == old({DXM}._pending_opens)[k], 'str')")],
+             note="forwards to SubchannelDemultiplex.register (used through its contract: the OPENs held under this name are "
+                  "connected there, once each, in arrival order)"),
+]
+
+EM = "self._manager"
+NEWSC = "new_obj('SubChannel', 0)"
+EP_NOTHING = [("nothing-allocated-sent-built-or-registered",
+               "n_calls('') == 0 and news('SubChannel') == 0 and len(bcall_names()) == 1 and bcalls('when_fired') == 1")]
+
+EP_CONTRACTS = [
+    Contract(f"{SUB}:SubchannelConnectorEndpoint.__attrs_post_init__", props=[PROP], params={},
+             self_fields={"_subprotocol": "str", "_manager": "obj[Manager]", "_host_addr": "opaque[Addr]",
+                          "_eventual_queue": "obj[EventualQueueB]"},
+             modifies=["_connection_deferreds"],
+             raises_exactly={"ValueError": "len(self._subprotocol) == 0"},
+             ensures=[("silent", "len(bcall_names()) == 0")],
+             note="an endpoint for the empty subprotocol name cannot be made"),
+    Contract(f"{SUB}:SubchannelConnectorEndpoint.connect", props=[PROP], params={"protocolFactory": "opaque[Factory]"},
+             self_fields={"_subprotocol": "str", "_manager": "obj[Manager]", "_host_addr": "opaque[Addr]",
+                          "_eventual_queue": "obj[EventualQueueB]"},
+             modifies=["_manager._next_subchannel_id", "_manager._inbound._open_subchannels",
+                       "_manager._subprotocol_factories._factories", "_manager._subprotocol_factories._pending_opens"],
+             raises={"OldPeerCannotDilateError": None, "AssertionError": None},
+             ensures_raise={
+                 "OldPeerCannotDilateError": EP_NOTHING,
+                 "AssertionError": [
+                     ("only-when-the-peer-already-opened-a-subchannel-under-this-sides-next-id",
+                      "resumed._next_subchannel_id in resumed._inbound._open_subchannels"),
+                     ("no-protocol-built", "bcalls('buildProtocol') == 0 and bcalls('makeConnection') == 0")]},
+             ensures=[
+                 ("waits-for-dilation-first", "bcalls('when_fired') == 1 and bcall_recv('when_fired', 0) is self._manager._main_channel "
+                                              "and ev_pos('when_fired', 0) == 0"),
+                 ("exactly-one-id-allocated-the-managers-next-one",
+                  f"n_calls('allocate_subchannel_id') == 1 and call_arg('allocate_subchannel_id', 0, 0) is {EM} and "
+                  "call_result('allocate_subchannel_id') == resumed._next_subchannel_id"),
+                 ("id-of-this-sides-parity-and-never-handed-out-again",
+                  f"{EM}._next_subchannel_id == resumed._next_subchannel_id + 2 and "
+                  f"call_result('allocate_subchannel_id') % 2 == {EM}._next_subchannel_id % 2"),
+                 ("exactly-one-OPEN-with-that-id-and-the-requested-subprotocol",
+                  f"n_calls('send_open') == 1 and call_arg('send_open', 0, 0) is {EM} and "
+                  "call_arg('send_open', 0, 1) == call_result('allocate_subchannel_id') and "
+                  "call_arg('send_open', 0, 2) == self._subprotocol"),
+                 ("exactly-one-SubChannel-for-that-id-manager-and-name",
+                  "news('SubChannel') == 1 and new_field('SubChannel', 0, '_scid') == call_result('allocate_subchannel_id') and "
+                  f"new_field('SubChannel', 0, '_manager') is {EM} and "
+                  "new_field('SubChannel', 0, '_peer_addr').subprotocol == self._subprotocol and "
+                  "new_field('SubChannel', 0, '_host_addr') == self._host_addr"),
+                 ("registered-once-under-its-id",
+                  f"n_calls('Manager.subchannel_local_open') == 1 and call_arg('Manager.subchannel_local_open', 0, 0) is {EM} and "
+                  "call_arg('Manager.subchannel_local_open', 0, 1) == call_result('allocate_subchannel_id') and "
+                  f"call_arg('Manager.subchannel_local_open', 0, 2) is {NEWSC} and "
+                  f"{EM}._inbound._open_subchannels[call_result('allocate_subchannel_id')] == {NEWSC}"),
+                 ("one-protocol-built-by-the-given-factory-for-that-name",
+                  "bcalls('buildProtocol') == 1 and bcall_recv('buildProtocol', 0) == protocolFactory and "
+                  "bcall_arg('buildProtocol', 0, 0).subprotocol == self._subprotocol"),
+                 ("attached-once-to-the-new-subchannel",
+                  f"n_calls('_set_protocol') == 1 and call_arg('_set_protocol', 0, 0) is {NEWSC} and "
+                  "call_arg('_set_protocol', 0, 1) == result"),
+                 ("connected-once-to-the-new-subchannel",
+                  f"bcalls('makeConnection') == 1 and bcall_recv('makeConnection', 0) == result and "
+                  f"bcall_arg('makeConnection', 0, 0) is {NEWSC}"),
+                 ("result-is-that-protocol", "result == bcall_ret('buildProtocol', 0)"),
+                 ("OPEN-sent-and-subchannel-registered-before-the-protocol-is-connected",
+                  "in_order('when_fired', 'allocate_subchannel_id', 'send_open', 'SubChannel', 'subchannel_local_open', "
+                  "'buildProtocol', '_set_protocol', 'makeConnection')"),
+                 ("nothing-else", "len(bcall_names()) == 5 and n_calls('') == 4"),
+                 ("the-new-subchannel-is-open-with-this-protocol",
+                  f"w_open({NEWSC}) and r_open({NEWSC}) and sc_inv({NEWSC}) and {NEWSC}._protocol == result and "
+                  f"len({NEWSC}._pending_remote_data) == 0 and not {NEWSC}._pending_remote_close")],
+             note="ghost `resumed` = the manager as found when the main channel has fired (its counters and tables are "
+                  "arbitrary by then). SubChannel construction runs the real __attrs_post_init__; allocate_subchannel_id, "
+                  "send_open, subchannel_local_open and _set_protocol are used through their contracts"),
+    Contract(f"{SUB}:SubchannelListenerEndpoint.listen", props=[PROP], params={"factory": "opaque[Factory]"},
+             self_fields={"subprotocol_name": "str", "_manager": "obj[Manager]"},
+             modifies=["_manager._next_subchannel_id", "_manager._inbound._open_subchannels",
+                       "_manager._subprotocol_factories._factories", "_manager._subprotocol_factories._pending_opens"],
+             raises={"OldPeerCannotDilateError": None, "ValueError": None},
+             ensures_raise={
+                 "OldPeerCannotDilateError": EP_NOTHING,
+                 "ValueError": [("only-when-already-listening-for-this-name",
+                                 "self.subprotocol_name in resumed._subprotocol_factories._factories"),
+                                ("the-first-listener-stays",
+                                 f"{EM}._subprotocol_factories._factories[self.subprotocol_name] == "
+                                 "resumed._subprotocol_factories._factories[self.subprotocol_name]")]},
+             ensures=[
+                 ("waits-for-dilation-first", "bcalls('when_fired') == 1 and bcall_recv('when_fired', 0) is self._manager._main_channel "
+                                              "and ev_pos('when_fired', 0) == 0 and len(bcall_names()) == 1"),
+                 ("factory-registered-exactly-once-under-this-name",
+                  f"n_calls('') == 1 and n_calls('_register_subprotocol_factory') == 1 and "
+                  f"call_arg('_register_subprotocol_factory', 0, 0) is {EM} and "
+                  "call_arg('_register_subprotocol_factory', 0, 1) == self.subprotocol_name and "
+                  "call_arg('_register_subprotocol_factory', 0, 2) == factory"),
+                 ("listening", f"{EM}._subprotocol_factories._factories[self.subprotocol_name] == factory and "
+                               f"self.subprotocol_name in {EM}._subprotocol_factories._factories"),
+                 ("held-OPENs-for-this-name-handed-over",
+                  f"len({EM}._subprotocol_factories._pending_opens[self.subprotocol_name]) == 0"),
+                 ("other-names-untouched",
+                  "forall(lambda k: k == self.subprotocol_name or ("
+                  f"{EM}._subprotocol_factories._pending_opens[k] == resumed._subprotocol_factories._pending_opens[k] and "
+                  f"(k in {EM}._subprotocol_factories._factories) == (k in resumed._subprotocol_factories._factories)), 'str')"),
+                 ("port-reports-the-host-address", f"result._host_addr == {EM}._host_addr")],
+             note="registration goes through Manager._register_subprotocol_factory -> SubchannelDemultiplex.register (contracts): "
+                  "OPENs held under this name are connected there once each, FIFO; later ones go straight to the factory "
+                  "(SubchannelDemultiplex._got_open, listener-present-connected-once-now)"),
+]
+
+
+
+def resumed_hook(it, fr):
+    # ghost `resumed`: the manager as last seen when the generator was (re)started - at entry, then at each resumption
+    from pyvc.interp import snapshot
+    fr.locals["resumed"] = snapshot(fr.selfobj.fields["_manager"], {})
+
+
+for _c in EP_CONTRACTS:
+    if _c.target.endswith((".connect", ".listen")):
+        _c.pre_hook = resumed_hook
+        # native witness: a canonical scenario on the real classes (replay/c13_replay.py), not the solver's model
+        _c.replay = {"driver": "c13_replay:endpoint_" + _c.target.split(".")[-1]}
+
+CONTRACTS = SC_CONTRACTS + DEMUX_CONTRACTS + INB_CONTRACTS + WIRING_CONTRACTS + MGR_FWD_CONTRACTS + EP_CONTRACTS
+
+
+def stable_fields_task(tier, seed):
+    """the fields of the two endpoint classes that connect()/listen() read after the yield are declared stable across it:
+    they are attrs fields that nothing in subchannel.py assigns (a syntactic frame argument, re-checked on every run);
+    the Manager fields read through them that are declared stable (_main_channel, _inbound, _outbound,
+    _subprotocol_factories, _host_addr) are only assigned in Manager.__attrs_post_init__ / the attrs constructor"""
+    import ast
+    import time
+    from pyvc import source
+    from pyvc.runner import ob
+    t0 = time.time()
+    obs = []
+    m = source.load_module(SUB)
+    for cname, stable in sorted(EP_STABLE.items()):
+        cd = m.classes[cname]
+        undeclared = sorted(set(stable) - set(cd.attr_fields))
+        stores = sorted({f"{c2}.{mn}:{n.attr}" for c2, cd2 in m.classes.items() for mn, fd in cd2.methods.items()
+                         for n in ast.walk(fd.node)
+                         if isinstance(n, ast.Attribute) and isinstance(n.ctx, (ast.Store, ast.Del)) and n.attr in stable
+                         and (c2 == cname or not (isinstance(n.value, ast.Name) and n.value.id == "self"))})
+        good = not undeclared and not stores
+        obs.append(ob(f"{SUB}:{cname}.stable-fields", "discharged" if good else "failed", "evaluation", 0.0, False, None,
+                      {"kind": "frame", "definite": True,
+                       "src": f"{sorted(stable)} are attrs fields of {cname} never assigned after construction "
+                              f"(not attrs fields: {undeclared}; stores: {stores})"}, smt_hash=cname))
+    mm = source.load_module(MGR)
+    mstable = sorted(set(EP_MGR_FIELDS) - {p[0] for p in EP_MGR_UNSTABLE})
+    cd = mm.classes["Manager"]
+    stores = sorted({f"{mn}:{n.attr}" for mn, fd in cd.methods.items() for n in ast.walk(fd.node)
+                     if isinstance(n, ast.Attribute) and isinstance(n.ctx, (ast.Store, ast.Del)) and n.attr in mstable and
+                     isinstance(n.value, ast.Name) and n.value.id == "self" and mn != "__attrs_post_init__"})
+    obs.append(ob(f"{MGR}:Manager.stable-fields", "discharged" if not stores else "failed", "evaluation", 0.0, False, None,
+                  {"kind": "frame", "definite": True,
+                   "src": f"Manager.{mstable} are assigned only by the constructor / __attrs_post_init__ (other stores: {stores})"},
+                  smt_hash="Manager"))
+    return {"obligations": obs, "info": {"target": f"{SUB}:<fields stable across the endpoints' yield>", "sha": None,
+                                         "lines": None, "paths": 1, "wall": round(time.time() - t0, 3)}}
 
 
 def tasks():
-    out = [ContractTask(c, regf_wiring if c in WIRING_CONTRACTS else regf) for c in CONTRACTS]
+    out = [ContractTask(c, regf_wiring if c in WIRING_CONTRACTS else regf_endpoints if c in MGR_FWD_CONTRACTS + EP_CONTRACTS else
+                        regf_real_subchannel if c.target.endswith("Inbound.handle_open") else regf)
+           for c in CONTRACTS]
+    from pyvc.runner import FuncTask
+    out.append(FuncTask("endpoint-stable-fields", stable_fields_task, True, "frame"))
     # "the two sides never allocate the same subchannel id": role agreement + id parity, shared with C11
     from . import c11
     out += [t for t in c11.tasks() if t.contract in c11.ROLE_CONTRACTS]
@@ -721,8 +1070,23 @@ ASSUMPTIONS = [
     "peer conformance used nowhere as a precondition: DATA/CLOSE after the peer's CLOSE and writes on a closed subchannel are part of the "
     "contracts (automat.NoTransition / AlreadyClosedError, nothing delivered or sent)",
     "delivery of OPEN/DATA/CLOSE records across the wire, in order and exactly once, is C10/C12; here: what each end does with them",
-    "SubchannelConnectorEndpoint.connect and SubchannelListenerEndpoint.listen are inlineCallbacks generators: outside the pyvc subset, "
-    "not under contract (their bodies are the call sequence allocate_subchannel_id / send_open / SubChannel / subchannel_local_open / "
-    "buildProtocol / _set_protocol / makeConnection, each piece of which is under contract here)",
+    "SubchannelConnectorEndpoint.connect / SubchannelListenerEndpoint.listen (inlineCallbacks generators, props/deferred.py): the "
+    "generator is resumed exactly once per fired Deferred. Deferred-result contract of Manager._main_channel.when_fired(): it fires "
+    "with None or fails with OldPeerCannotDilateError (the only failure Manager.fail is given). While suspended everything the "
+    "manager may change is arbitrary at resumption (_next_subchannel_id, Inbound._open_subchannels, the demultiplexer's listeners and "
+    "held OPENs); the other Manager fields read (_main_channel, _inbound, _outbound, _subprotocol_factories, _host_addr) and the "
+    "endpoints' attrs fields are stable: a syntactic frame check, task endpoint-stable-fields. Assumed about the resumption state: "
+    "_next_subchannel_id is an int, i.e. the main channel fires only after choose_role (argued, not proved here: fire() sits in "
+    "connector_connection_made behind the connection_made input, which only has rows in states entered through rx_PLEASE/choose_role)",
+    "connect() may end in AssertionError AFTER its OPEN was queued, exactly when a subchannel is already open under the id it has just "
+    "allocated (Inbound.handle_open does not check the parity of a peer-chosen id); stated as connect.ensures_raise[AssertionError], "
+    "not judged a violation of the statement (a conforming peer only uses ids of its own parity: C11 role lemmas)",
+    "where a SubChannel is built (SubchannelConnectorEndpoint.connect, Inbound.handle_open) the real attrs construction + "
+    "__attrs_post_init__ run (attrs validators dropped; the machine starts in its initial state; ghost __id = the handle under "
+    "which the tables of opaque[SubChannel] hold it). What SubchannelDemultiplex._connect does to a subchannel handed to it is "
+    "stated there as calls on the handle (_set_protocol, _deliver_queued_data), so handle_open says nothing about the new "
+    "subchannel's state when a listener was present",
+    "Manager.send_open is verified with Outbound as a boundary object: one build_record(Open, scid, subprotocol), then "
+    "queue_and_send_record of exactly the record handed back; what Outbound does with it is C10",
     "make_side() is modelled as returning some str in Dilator.dilate (its value plays no role in the wiring obligation)",
 ]
